@@ -238,7 +238,40 @@ class C05(Prop):
                         ks = [rng.choice(KINDS) for _ in range(n)]
                         sub = {"D.det:Q": d, "D.det:B": "D.det:I259.0"}
                         L.append(self.line(mode, errs_for(ks, second=False), [sub.get(x, x) for x in il] + acc + ["D.park"]))
-        # random longer histories: several polls, detections, up to 3 handles raising up to 3 errors
+        # shutdown() (label D.shut: `check_connection_error`, the check without a waker) against the handles' raises:
+        # before / between / after a handle's store and wake, alone, behind a parked poll, in front of a poll; mode pce
+        # calls check_connection_error directly, so the label may stand anywhere the driver is idle
+        n_shut = len(L)
+        for dseq in (["D.shut", "D.shut"], POLL + ["D.shut"], ["D.shut"] + POLL, POLL + ["D.shut"] + POLL):
+            for n in (1, 2):
+                if n == 2 and len(dseq) > 5 and not big:
+                    continue
+                for il in interleavings([dseq] + [["S%d" % (k + 1)] * 2 for k in range(n)]):
+                    for k1 in (KINDS if n == 1 else [rng.choice(KINDS)]):
+                        ks = [k1] + [rng.choice(KINDS) for _ in range(n - 1)]
+                        L.append(self.line("pce", errs_for(ks), il + self.later(n) + ["D.park", "D.shut"]))
+        # ... and on the real futures: shutdown() of server::Connection / client::Connection itself, called between two
+        # polls of accept() / poll_close / wait_idle once a handle has stored its error (on an empty cell the real
+        # shutdown() would write its GOAWAY and change what the next poll does: the pce lines cover that side)
+        for mode in ("acc", "clo", "idl"):
+            for n in (1, 2):
+                for il in interleavings([acc + ["D.park", "D.shut"]] + [["S%d" % (k + 1)] * 2 for k in range(n)]):
+                    if min(il.index("S%d" % (k + 1)) for k in range(n)) > il.index("D.shut"):
+                        continue
+                    if n == 2 and not big and rng.random() < 0.8:
+                        continue
+                    ks = [rng.choice(KINDS) for _ in range(n)]
+                    L.append(self.line(mode, errs_for(ks, second=False), il + acc + ["D.park", "D.shut"]))
+                for pre in ([], ["D.shut"]):
+                    for il in interleavings([["D.shut"] + acc + ["D.park"]] + [["S%d" % (k + 1)] * 2 for k in range(n)]):
+                        if min(il.index("S%d" % (k + 1)) for k in range(n)) > il.index("D.shut"):
+                            continue
+                        if not big and rng.random() < (0.5 if n == 1 else 0.9):
+                            continue
+                        ks = [rng.choice(KINDS) for _ in range(n)]
+                        L.append(self.line(mode, errs_for(ks, second=False), il + pre + ["D.poll", "D.pce"]))
+        self.n_shut = len(L) - n_shut
+        # random longer histories: several polls, detections, shutdown calls, up to 3 handles raising up to 3 errors
         for _ in range(20000 if big else 3000):
             n = rng.randrange(1, 4)
             errs = []
@@ -251,6 +284,8 @@ class C05(Prop):
                 errs.append(es)
             d = []
             for _ in range(rng.randrange(1, 4)):
+                if rng.random() < 0.3:
+                    d.append("D.shut")
                 d.append("D.poll")
                 d += ["D.pce"] * (2 * rng.randrange(0, 3) + rng.choice([0, 0, 0, 1]))
                 r = rng.random()
@@ -259,6 +294,8 @@ class C05(Prop):
                 elif r < 0.8:
                     tag[0] += 1
                     d.append("D.det:" + mk_err(rng.choice(KINDS), rng, tag[0] % 97))
+                if rng.random() < 0.15:
+                    d.append("D.shut")
             seqs = [d] + [["S%d" % (k + 1)] * (2 * len(errs[k])) for k in range(n)]
             L.append(self.line("pce", errs, random_merge(seqs, rng)))
         # the same scenarios with the driver polled from a different task each time (every poll has
